@@ -52,12 +52,12 @@ impl Check for C10 {
     fn phases(&self, tier: Tier, b: f64) -> Vec<Phase> {
         let q = tier == Tier::Quick;
         vec![
-            Phase { name: "valid keys and key sets x styles", cases: scale(if q { 10000 } else { 300000 }, b), exhaustive: false },
+            Phase { name: "valid keys and key sets x styles", cases: scale(if q { 80000 } else { 300000 }, b), exhaustive: false },
             Phase { name: "complete single-fault neighbourhood of fixed base keys / key sets", cases: if q { 60 } else { 600 }, exhaustive: true },
-            Phase { name: "1-3 random faults", cases: scale(if q { 20000 } else { 600000 }, b), exhaustive: false },
-            Phase { name: "kty variants x position, key_ops variants, label alphabet", cases: scale(if q { 30000 } else { 800000 }, b), exhaustive: false },
+            Phase { name: "1-3 random faults", cases: scale(if q { 160000 } else { 600000 }, b), exhaustive: false },
+            Phase { name: "kty variants x position, key_ops variants, label alphabet", cases: scale(if q { 240000 } else { 800000 }, b), exhaustive: false },
             Phase { name: "all 16 subsets of the optional typed fields x extras profiles", cases: 16 * 4, exhaustive: true },
-            Phase { name: "key sets of 0-4 keys with a fault at each index", cases: scale(if q { 4000 } else { 100000 }, b), exhaustive: false },
+            Phase { name: "key sets of 0-4 keys with a fault at each index", cases: scale(if q { 32000 } else { 100000 }, b), exhaustive: false },
         ]
     }
     fn run_case(&self, ctx: &mut Ctx, phase: usize, idx: u64) {
